@@ -56,12 +56,15 @@ type world struct {
 	hq       map[int]*hqueue // call token -> queue
 	hn       int
 	usedTok  map[int]bool
-	handlers []*hstate // live (not yet returned) handler incarnations
+	mdCache  map[string]metadata.MD // identical scripted metadata is ONE object across calls (legal: setters must copy)
+	handlers []*hstate              // live (not yet returned) handler incarnations
 	closed   bool
 	connOf   func(ctx context.Context) int
 }
 
-func newWorld() *world { return &world{hq: map[int]*hqueue{}, usedTok: map[int]bool{}} }
+func newWorld() *world {
+	return &world{hq: map[int]*hqueue{}, usedTok: map[int]bool{}, mdCache: map[string]metadata.MD{}}
+}
 
 func (w *world) queue(c int) *hqueue {
 	w.mu.Lock()
@@ -149,6 +152,21 @@ func (w *world) setIn(hs *hstate, in string) {
 	w.mu.Lock()
 	hs.in = in
 	w.mu.Unlock()
+}
+
+// sharedMD returns the scenario-wide object for a scripted metadata set. Handlers hand THIS object to
+// the library (as an application with package-level "common headers" would); events are logged from
+// a private copy of the script (mdOf), so a library that scribbles into the caller's map is noticed.
+func (w *world) sharedMD(p [][2]string) metadata.MD {
+	key := fmt.Sprint(p)
+	w.mu.Lock()
+	defer w.mu.Unlock()
+	m, ok := w.mdCache[key]
+	if !ok {
+		m = mdOf(p)
+		w.mdCache[key] = m
+	}
+	return m
 }
 
 type connKey struct{}
@@ -293,19 +311,19 @@ func (w *world) runUnary(ctx context.Context, in *wrapperspb.BytesValue) (any, e
 		w.setIn(hs, op.O)
 		switch op.O {
 		case "sethdr":
-			err := grpc.SetHeader(ctx, mdOf(op.Md))
+			err := grpc.SetHeader(ctx, w.sharedMD(op.Md))
 			he := ev("HSetHdr")
 			he.C, he.H, he.Conn, he.Md = hs.c, hs.h, hs.conn, mdCanon(mdOf(op.Md))
 			he.Res = errRes(err)
 			tr.emit(he)
 		case "sendhdr":
-			err := grpc.SendHeader(ctx, mdOf(op.Md))
+			err := grpc.SendHeader(ctx, w.sharedMD(op.Md))
 			he := ev("HSendHdr")
 			he.C, he.H, he.Conn, he.Md = hs.c, hs.h, hs.conn, mdCanon(mdOf(op.Md))
 			he.Res = errRes(err)
 			tr.emit(he)
 		case "settrl":
-			err := grpc.SetTrailer(ctx, mdOf(op.Md))
+			err := grpc.SetTrailer(ctx, w.sharedMD(op.Md))
 			he := ev("HSetTrl")
 			he.C, he.H, he.Conn, he.Md = hs.c, hs.h, hs.conn, mdCanon(mdOf(op.Md))
 			he.Res = errRes(err)
@@ -376,10 +394,10 @@ func (w *world) runStream(kind string, ss grpc.ServerStream) error {
 		x.C, x.H, x.Conn = hs.c, hs.h, hs.conn
 		return x
 	}
+	m := new(wrapperspb.BytesValue) // one object for every RecvMsg of this handler (the library must overwrite it)
 	recv := func() (string, error) {
 		w.setIn(hs, "recv")
 		tr.emit(base("HRecv"))
-		m := new(wrapperspb.BytesValue)
 		err := ss.RecvMsg(m)
 		r := base("HRecvRet")
 		switch {
@@ -437,7 +455,7 @@ func (w *world) runStream(kind string, ss grpc.ServerStream) error {
 				}
 			}
 		case "sethdr":
-			err := ss.SetHeader(mdOf(op.Md))
+			err := ss.SetHeader(w.sharedMD(op.Md))
 			he := base("HSetHdr")
 			he.Md, he.Res = mdCanon(mdOf(op.Md)), errRes(err)
 			tr.emit(he)
@@ -445,12 +463,12 @@ func (w *world) runStream(kind string, ss grpc.ServerStream) error {
 			he := base("HSendHdr")
 			he.Md = mdCanon(mdOf(op.Md))
 			tr.emit(he)
-			err := ss.SendHeader(mdOf(op.Md))
+			err := ss.SendHeader(w.sharedMD(op.Md))
 			hr := base("HSendHdrRet")
 			hr.Res = errRes(err)
 			tr.emit(hr)
 		case "settrl":
-			ss.SetTrailer(mdOf(op.Md))
+			ss.SetTrailer(w.sharedMD(op.Md))
 			he := base("HSetTrl")
 			he.Md, he.Res = mdCanon(mdOf(op.Md)), "ok"
 			tr.emit(he)
